@@ -5,7 +5,7 @@ usage: try_seeded.py <src_dir with patch.diff demo.py meta.json> <id> <check> [<
  2. copies the three files to /verif/seeded/<id>/;
  3. applies the patch to /repo, runs the named checks (quick), restores /repo; prints which raised VIOLATION."""
 import subprocess, sys, json, shutil, os, tempfile, pathlib
-src, sid, checks = pathlib.Path(sys.argv[1]), sys.argv[2], sys.argv[3:]
+src, sid, checks = pathlib.Path(sys.argv[1]).resolve(), sys.argv[2], sys.argv[3:]
 V = pathlib.Path("/verif")
 def sh(cmd, **k):
     return subprocess.run(cmd, shell=True, capture_output=True, text=True, **k)
